@@ -139,3 +139,5 @@ SPEC = dict(
         'machine arithmetic is bit-precise (doubles are IEEE-754 binary64, ndsize_t is 64-bit modular)',
     ],
 )
+
+SPEC['assumptions'] = list(SPEC.get('assumptions', [])) + ['session 3: list forms indexOf(start_positions, end_positions, match) - the pair conversion (its own units: c07_pair.h) is a ghost that checks the arguments of its k-th call; ASSUMED contract of std::upper_bound (not used by the pinned code)']
